@@ -18,6 +18,7 @@ pub const MUTATION_KINDS: &[&str] = &[
     "split-line",
     "split-line-comment",
     "tight-block-comment",
+    "file-start-comment",
 ];
 
 /// Apply `n` random layout/comment mutations to `src`.  All edits are chosen on the token stream
@@ -64,16 +65,27 @@ pub fn mutate(src: &str, g: &mut Gen, n: usize) -> (String, Vec<&'static str>) {
     let mut edits: Vec<(usize, String)> = vec![];
     let mut kinds: Vec<&'static str> = vec![];
     let mut crlf = false;
+    let mut prefix = String::new();
     let mut serial = 0usize;
     let pick = |g: &mut Gen, v: &Vec<usize>| -> Option<usize> { if v.is_empty() { None } else { Some(v[g.usize_below(v.len())]) } };
     for _ in 0..n {
-        let k = g.weighted(&[6, 5, 5, 2, 2, 3, 2, 2, 3, 1, 3, 4, 4]);
+        let k = g.weighted(&[6, 5, 5, 2, 2, 3, 2, 2, 3, 1, 3, 4, 4, 1]);
         let kind = MUTATION_KINDS[k];
         serial += 1;
         let e: Option<(usize, String)> = match kind {
             "eol-line-comment" => pick(g, &newline_toks).map(|i| (i, format!(" // c{serial}{}{}", if g.bool(1, 8) { " コメント é" } else { "" }, tokens[i].text(src)))),
             "split-line" => pick(g, &inner_ws).map(|i| (i, format!("\n{}", " ".repeat(g.usize_below(9))))),
             "split-line-comment" => pick(g, &inner_ws).map(|i| (i, format!(" // c{serial}\n{}", " ".repeat(g.usize_below(9))))),
+            "file-start-comment" => {
+                prefix = match g.below(4) {
+                    0 => format!("// c{serial}\n"),
+                    1 => format!("/* c{serial} */ "),
+                    2 => format!("/* c{serial} */\n"),
+                    _ => format!("\n\n  // c{serial}\n/* d{serial} */ "),
+                };
+                kinds.push("file-start-comment");
+                None
+            }
             "tight-block-comment" => pick(g, &tight).map(|i| (i, format!("{}/* c{serial} */", tokens[i].text(src)))),
             "own-line-comment" => pick(g, &newline_toks).map(|i| {
                 let ind = " ".repeat(g.usize_below(3) * 4);
@@ -112,6 +124,7 @@ pub fn mutate(src: &str, g: &mut Gen, n: usize) -> (String, Vec<&'static str>) {
     }
     edits.sort_by_key(|(i, _)| *i);
     let mut out = String::with_capacity(src.len() + 64);
+    out.push_str(&prefix);
     let mut ei = 0;
     for (i, t) in tokens.iter().enumerate() {
         if ei < edits.len() && edits[ei].0 == i {
@@ -150,6 +163,10 @@ const R_TYPE_DECL: u32 = 8;
 const R_MATCH: u32 = 16;
 const R_EMPTY_LAMBDA: u32 = 32;
 const R_BARE_IF: u32 = 64;
+const R_MACRO_DECL: u32 = 128;
+const R_NESTED_UNARY: u32 = 256;
+const R_SINGLE_TUPLE: u32 = 512;
+const N_RISKY: u32 = 10;
 
 struct Syn<'a> {
     g: &'a mut Gen,
@@ -177,7 +194,7 @@ impl Syn<'_> {
         *self.g.pick(NAMES)
     }
     fn ty(&mut self, depth: usize) -> String {
-        let k = if depth == 0 { self.g.below(3) } else { self.g.weighted(&[5, 2, 1, 2, 2, 2, 1, 1]) as u64 };
+        let k = if depth == 0 { self.g.below(3) } else { self.g.weighted(&[5, 2, 1, 2, 2, 2, 1, 1, 1, 1, 1, 1, 1]) as u64 };
         match k {
             0 => "float".into(),
             1 => "int".into(),
@@ -187,7 +204,12 @@ impl Syn<'_> {
             5 => format!("[{}]", self.ty(depth - 1)),
             6 if self.on(R_RECORD_TYPE) => format!("{{a:{}, b:{}}}", self.ty(depth - 1), self.ty(depth - 1)),
             6 => format!("({}, {}, {})", self.ty(depth - 1), self.ty(depth - 1), self.ty(depth - 1)),
-            _ => self.g.pick(TYPES).to_string(),
+            7 => self.g.pick(TYPES).to_string(),
+            8 => format!("({})", self.ty(depth - 1)),
+            9 => format!("`{}", self.ty(depth - 1)),
+            10 => format!("{}::{}", self.g.pick(MODS), self.g.pick(TYPES)),
+            11 => format!("{} | {}", self.ty(0), self.ty(0)),
+            _ => format!("()->{}", self.ty(depth - 1)),
         }
     }
     fn atom(&mut self) -> String {
@@ -204,7 +226,12 @@ impl Syn<'_> {
     fn args(&mut self, depth: usize, lo: usize, hi: usize) -> String {
         let n = lo + self.g.usize_below(hi - lo + 1);
         let v: Vec<String> = (0..n).map(|_| self.expr(depth)).collect();
-        v.join(if self.g.bool(1, 6) { "," } else { ", " })
+        let mut s = v.join(if self.g.bool(1, 6) { "," } else { ", " });
+        if n >= 2 && self.g.bool(1, 10) {
+            self.mark("trailing-comma");
+            s.push(',');
+        }
+        s
     }
     fn expr(&mut self, depth: usize) -> String {
         if depth == 0 {
@@ -241,7 +268,21 @@ impl Syn<'_> {
             }
             4 => {
                 self.mark("unary-minus");
-                format!("-{}", self.atom())
+                match self.g.below(6) {
+                    0 | 1 => format!("-{}", self.atom()),
+                    2 => format!("- {}", self.atom()),
+                    3 => format!("+{}", self.atom()),
+                    4 => format!("-(-{})", self.atom()),
+                    _ if self.on(R_NESTED_UNARY) => {
+                        self.mark("nested-unary");
+                        format!("- {}{}", if self.g.coin() { "-" } else { "+" }, self.atom())
+                    }
+                    _ => format!("-({})", self.expr(d)),
+                }
+            }
+            5 if self.on(R_SINGLE_TUPLE) && self.g.bool(1, 2) => {
+                self.mark("single-element-tuple");
+                format!("({},)", self.expr(d))
             }
             5 => {
                 self.mark("tuple");
@@ -330,15 +371,22 @@ impl Syn<'_> {
             }
             12 => {
                 self.mark("field-or-proj");
-                match self.g.below(3) {
+                match self.g.below(6) {
                     0 => format!("{}.{}", self.name(), FIELDS[self.g.usize_below(FIELDS.len())]),
                     1 => format!("{}.{}", self.name(), self.g.below(3)),
-                    _ => format!("{}[{}]", self.name(), self.expr(d)),
+                    2 => format!("{}[{}]", self.name(), self.expr(d)),
+                    3 => format!("{}.{}.{}", self.name(), self.g.below(3), self.g.below(3)),
+                    4 => format!("{}({})({})[{}].{}", self.g.pick(FNAMES), self.args(d, 0, 2), self.args(d, 0, 2), self.atom(), FIELDS[0]),
+                    _ => format!("{}.{}.{}", self.name(), FIELDS[0], FIELDS[1]),
                 }
             }
             13 => {
                 self.mark("macro-expand");
-                format!("{}!({})", self.g.pick(FNAMES), self.args(d, 0, 3))
+                if self.g.bool(1, 4) {
+                    format!("{}::{}!({})", self.g.pick(MODS), self.g.pick(FNAMES), self.args(d, 0, 3))
+                } else {
+                    format!("{}!({})", self.g.pick(FNAMES), self.args(d, 0, 3))
+                }
             }
             14 => {
                 self.mark("quote");
@@ -366,7 +414,9 @@ impl Syn<'_> {
                 let n = 1 + self.g.usize_below(3);
                 let mut arms = vec![];
                 for i in 0..n {
-                    let p = match self.g.below(5) {
+                    let p = match self.g.below(7) {
+                        5 => format!("({i}, _)"),
+                        6 => format!("float({})", self.name()),
                         0 => format!("{i}"),
                         1 => format!("{i}.0"),
                         2 => CTORS[self.g.usize_below(CTORS.len())].to_string(),
@@ -438,7 +488,11 @@ impl Syn<'_> {
                 }
                 1 => {
                     self.mark("assign");
-                    format!("{} = {}", self.name(), self.expr(depth))
+                    match self.g.below(4) {
+                        0 => format!("{}.{} = {}", self.name(), FIELDS[0], self.expr(depth)),
+                        1 => format!("{}[{}] = {}", self.name(), self.atom(), self.expr(depth)),
+                        _ => format!("{} = {}", self.name(), self.expr(depth)),
+                    }
                 }
                 2 => {
                     self.mark("letrec");
@@ -500,7 +554,18 @@ impl Syn<'_> {
             ""
         };
         let sep = if self.g.bool(1, 5) { "," } else { ", " };
-        format!("{ind}{vis}fn {name}({}){ret}{}{{\n{ind}    {}\n{ind}}}", ps.join(sep), if self.g.coin() { "" } else { " " }, body.join(&format!("\n{ind}    ")))
+        let kw = if self.on(R_MACRO_DECL) && self.g.bool(1, 2) {
+            self.mark("macro-decl");
+            "macro"
+        } else {
+            "fn"
+        };
+        let mut plist = ps.join(sep);
+        if n >= 1 && self.g.bool(1, 10) {
+            self.mark("trailing-comma");
+            plist.push(',');
+        }
+        format!("{ind}{vis}{kw} {name}({}){ret}{}{{\n{ind}    {}\n{ind}}}", plist, if self.g.coin() { "" } else { " " }, body.join(&format!("\n{ind}    ")))
     }
     fn top(&mut self, depth: usize) -> String {
         match self.g.weighted(&[8, 5, 1, 1, 2, 2, 2, 1, 2, 1]) {
@@ -535,6 +600,10 @@ impl Syn<'_> {
                     }
                     _ => format!("pub type {t} = Leaf | Node(int)"),
                 }
+            }
+            5 if self.g.bool(1, 5) => {
+                self.mark("external-module");
+                format!("{}mod {}", if self.g.bool(1, 3) { "pub " } else { "" }, self.g.pick(MODS))
             }
             5 => {
                 self.mark("module");
@@ -576,7 +645,7 @@ pub fn synthetic(g: &mut Gen) -> (String, Vec<&'static str>) {
     let depth = 1 + g.int_small(0, 2) as usize;
     let mut risky = 0u32;
     if g.coin() {
-        for b in 0..7 {
+        for b in 0..N_RISKY {
             if g.bool(1, 3) {
                 risky |= 1 << b;
             }
